@@ -44,7 +44,7 @@ def gen_cases(tier, seed):
     quick = tier == "quick"
     out = []
     offs = [(3, 4, 0), (0, 3, 4), (4, 0, 3), (1, 2, 2), (2, 1, 2), (2, 2, 1), (2, 3, 6), (6, 2, 3), (0, 0, 1), (1, 4, 8)]
-    for d in range(18 if quick else 90):
+    for d in range(48 if quick else 120):
         rng = cg.rng_for(seed, "C14", d)
         nsh = rng.randint(1, 3)
         wide = d % 3 == 2
@@ -66,6 +66,8 @@ def gen_cases(tier, seed):
         else:
             basis = [cg.shell(rng, rng.randint(0, 3), K=rng.randint(1, 2), M=rng.randint(1, 2), hi=50.0, lo=0.1,
                               bits=24, cen=rng.choice(cens)) for _ in range(nsh)]
+        if d % 3 == 0:
+            basis[0]["l"] = 3           # an f shell in every third case: Boys orders up to 6
         nn = rng.randint(1, 5)
         nuclei = []
         for k in range(nn):
@@ -85,19 +87,49 @@ def gen_cases(tier, seed):
                 sc = rng.choice([4, 8, 2] if far is None else [4, 2048, 4096])
                 sg = [rng.choice([1, -1]) for _ in range(3)]
                 p = [cg.dyadic(cg.val(c) + s * v / sc, 40) for c, v, s in zip(nuc["pos"], o, sg)]   # exactly representable distance
+                if sc > 8:
+                    # close to the nucleus the offset is GENERIC: with offsets on a coarse binary grid the rounding errors of
+                    # |r|^2, |R|^2 and r.R coincide and cancel, and an expanded-square distance looks exact
+                    p = [cg.dyadic(cg.val(c) + s * v / sc * rng.uniform(0.7, 1.3), 52) for c, v, s in zip(nuc["pos"], o, sg)]
             else:
                 p = [list(x) for x in cg.center(rng, 3.0, 4)]
                 if far is not None:
                     p = cg.add(far, p)
             pts.append(p)
+        # points that put the Boys argument (a + b)|P - R|^2 of the highest-l primitive pair at prescribed intermediate values:
+        # all orders m <= l_a + l_b of F_m are needed there and neither limit of F_m applies
+        hi_ = sorted(basis, key=lambda s_: -s_["l"])[:2]
+        sa_, sb_ = hi_[0], hi_[-1]
+        if d % 3 == 0:
+            sa_ = sb_ = basis[0]        # the f shell with itself
+        ea, eb = cg.val(sa_["exps"][0]), cg.val(sb_["exps"][0])
+        Pc = [(ea * cg.val(x) + eb * cg.val(y)) / (ea + eb) for x, y in zip(sa_["center"], sb_["center"])]
+        for t in [rng.choice([21.0, 23.0, 26.5]), rng.choice([6.0, 11.0, 17.0, 29.0, 33.0, 37.0, 44.0, 60.0])]:
+            v = [rng.uniform(-1, 1) for _ in range(3)]
+            nv = sum(x * x for x in v) ** 0.5 or 1.0
+            pts.append([cg.dyadic(pc + (t / (ea + eb)) ** 0.5 * x / nv, 30) for pc, x in zip(Pc, v)])
         nb = sum(layout.size(s) for s in basis)
         c = {"id": d + 1, "basis": basis, "nuclei": nuclei, "points": pts}
         if d % 3 != 0:
             rows = rng.choice([max(1, nb - 1), nb, nb + 2]) if d % 3 == 1 else nb
             c["transform"] = [[cg.val(cg.dyadic(rng.uniform(-1, 1), 8)) for _ in range(nb)] for _ in range(rows)]
+            if d % 6 == 1:
+                # a square transformation close to, but not, the identity (a renormalisation by 1 + O(1e-6))
+                rows = nb
+                c["transform"] = [[(1.0 + rng.choice([-1, 1]) * 2.0 ** -18 if i == j else 2.0 ** -30 * ((i * nb + j) % 7 - 3)) for j in range(nb)]
+                                  for i in range(nb)]
             nb = rows
         A = np.array([[cg.val(cg.dyadic(rng.uniform(-1, 1), 8)) for _ in range(nb)] for _ in range(nb)])
         c["P"] = (A + A.T).tolist()
+        if d % 3 == 0:
+            # a density matrix with a single pair of functions of the f shell: the electronic term is one integral
+            # phi_a phi_b / |r - R|, judged on its own scale rather than against the sum over all pairs
+            n0 = layout.size(basis[0])
+            a_, b_ = rng.randrange(n0), rng.randrange(n0)
+            E = np.zeros((nb, nb))
+            E[a_, b_] += 1.0
+            E[b_, a_] += 1.0
+            c["P"] = E.tolist()
         out.append(c)
     return out
 
